@@ -1,6 +1,6 @@
 use super::*;
 use crate::error::Qcow2Result;
-use crate::helpers::Qcow2IoBuf;
+use crate::helpers::{IntAlignment, Qcow2IoBuf};
 use crate::meta::{L1Entry, L2Entry, L2Table, Mapping, MappingSource, SplitGuestOffset, Table};
 use async_recursion::async_recursion;
 use futures_locks::RwLockWriteGuard as LockWriteGuard;
@@ -46,47 +46,79 @@ impl<T: Qcow2IoOps> Qcow2Dev<T> {
 
         // check if the current index is in bound of header l1 entries
         if !l1_table.in_bounds(l1_index) {
-            if l1_index >= l1_table.entries() {
+            let l1_entries = std::cmp::max(
+                l1_index + 1,
+                std::cmp::min(info.max_l1_entries(), l1_table.entries()),
+            );
+            // the on-disk table owns the clusters its header entries reach
+            // into, and nothing behind them
+            let owned_bytes = (l1_table.header_entries() * std::mem::size_of::<u64>())
+                .align_up(info.cluster_size())
+                .unwrap();
+
+            if l1_entries * std::mem::size_of::<u64>() > owned_bytes {
                 #[cfg(qcow2_rs_verif)]
                 crate::verif::probe("grow:l1-relocate");
                 let old_l1_offset = l1_table.get_offset().unwrap();
-                let old_l1_clusters = l1_table.cluster_count(info);
+                let old_l1_clusters = owned_bytes >> info.cluster_bits();
 
                 let mut new_l1_table = l1_table.clone_and_grow(l1_index, info.cluster_size());
                 let new_l1_clusters = new_l1_table.cluster_count(info);
                 let allocated = self.allocate_clusters(new_l1_clusters).await?;
 
-                // fixme: allocated may return less clusters, here has to cover this
-                // case
                 match allocated {
                     None => return Err("nothing allocated for new l1 table".into()),
                     Some(res) => {
+                        if res.1 < new_l1_clusters {
+                            self.free_clusters(res.0, res.1).await?;
+                            return Err("no continuous room for new l1 table".into());
+                        }
                         log::info!("ensure_l2_offset: write new allocated l1 table");
-                        self.flush_refcount().await?;
-                        self.flush_mapping(&l1_table).await?;
-                        new_l1_table.set_offset(Some(res.0));
-                        self.flush_top_table(&new_l1_table).await?;
-                        // the new table before the header which points to it
-                        self.call_fsync(0, usize::MAX, 0).await?;
+                        let written = async {
+                            self.flush_refcount().await?;
+                            self.flush_mapping(&l1_table).await?;
+                            // all of the new table has to be written
+                            new_l1_table.set_offset(Some(res.0));
+                            new_l1_table.update_header_entries(l1_entries.try_into().unwrap());
+                            new_l1_table.set_dirty_range(0, new_l1_table.entries());
+                            self.flush_top_table(&new_l1_table).await?;
+                            // the new table before the header which points to it
+                            self.call_fsync(0, usize::MAX, 0).await?;
 
-                        self.flush_header_for_l1_table(res.0, new_l1_table.entries())
-                            .await?;
-                        // ... and the header before the old table is released
-                        self.call_fsync(0, usize::MAX, 0).await?;
+                            self.flush_header_for_l1_table(res.0, l1_entries).await
+                        }
+                        .await;
+                        if let Err(err) = written {
+                            // the header still points to the old table
+                            self.free_clusters(res.0, res.1).await?;
+                            return Err(err);
+                        }
                     }
                 };
 
                 *l1_table = new_l1_table;
-                self.free_clusters(old_l1_offset, old_l1_clusters).await?;
+                // ... and the header before the old table is released
+                self.call_fsync(0, usize::MAX, 0).await?;
+                if old_l1_clusters > 0 {
+                    self.free_clusters(old_l1_offset, old_l1_clusters).await?;
+                }
             } else {
                 let l1_off = {
                     let h = self.header.read().await;
                     h.l1_table_offset()
                 };
-                let l1_entries = std::cmp::min(info.max_l1_entries(), l1_table.entries());
 
                 #[cfg(qcow2_rs_verif)]
                 crate::verif::probe("grow:l1-header-entries");
+                // the rest of the table's last cluster becomes part of the
+                // table: it has to hold the (empty) entries before the header
+                // says so (the blocks written may hold new mappings too, so
+                // this has to be a flush in order)
+                l1_table.set_dirty_range(l1_table.header_entries(), l1_entries);
+                self.flush_refcount().await?;
+                self.flush_mapping(&l1_table).await?;
+                self.call_fsync(0, usize::MAX, 0).await?;
+
                 // update l1 entries
                 self.flush_header_for_l1_table(l1_off, l1_entries).await?;
                 l1_table.update_header_entries(l1_entries.try_into().unwrap());
